@@ -104,6 +104,15 @@ def run_case(case, trace_cache=True, schemas_text=None, aggregation_text=None, s
     except Exception as e:  # noqa
       raise HarnessError('WriterService.startService() failed in the harness: %r' % (e,))
     run.service = svc
+    run.reload_ended = False
+    if case.get('reload_ended'):
+      # earlier in the daemon's life one of the periodic schema reload timers ended (a LoopingCall whose function
+      # raised - e.g. SystemExit out of a schema file with an invalid retention - is simply not running any more,
+      # the daemon goes on): the orderly stop arrives in that state
+      task = getattr(svc, 'storage_reload_task', None)
+      if task is not None and getattr(task, 'running', False):
+        task.stop()
+        run.reload_ended = True
     cache = b.cache.MetricCache()
     cache.lock = sched.make_lock(like=cache.lock)
     run.cache = cache
